@@ -94,7 +94,7 @@ def build_crate(workdir, kspecs):
                 lsf = sources.src(lf["file"])
                 ltxt, lloc = lsf.fn_text(lf["fn"], lf.get("within"), lf.get("nth", 0))
                 code = ("    // lifted verbatim from %s:%d\n" % (lf["file"], lloc["line"])) + ltxt + "\n" + code
-            txt = "\n#[cfg(kani)]\n#[allow(unused, non_snake_case, clippy::all)]\nmod %s {\n    use super::*;\n%s\n}\n" % (md["name"], code)
+            txt = "\n#[cfg(kani)]\n#[allow(unused, non_snake_case, clippy::all)]\n%smod %s {\n    use super::*;\n%s\n}\n" % (md.get("vis", ""), md["name"], code)
             per_file.setdefault(md["file"], []).append((len(sf.text), txt))
         for fn in ks.get("functions", []):
             sf = sources.src(fn["file"])
@@ -151,6 +151,20 @@ def make_slice(sl):
         b = sf.text.rfind("\n", 0, b) + 1
         parts.append(sf.text[a:b])
     tail = sl.get("post", "")
+    if sl.get("expr_of_assign"):
+        # right-hand side of the assignment statement starting at the anchor, up to its ';'
+        a = one(sl["expr_of_assign"])
+        j, depth = a + len(sl["expr_of_assign"]), 0
+        while True:
+            ch = sf.masked[j]
+            if ch in "([{":
+                depth += 1
+            elif ch in ")]}":
+                depth -= 1
+            elif ch == ";" and depth == 0:
+                break
+            j += 1
+        parts.append("        " + sf.text[a + len(sl["expr_of_assign"]):j].strip() + "\n")
     if sl.get("closure"):
         c = one(sl["closure"])
         # the call's opening parenthesis is the first '(' of the anchor
@@ -294,7 +308,7 @@ def classify(run, wanted):
                           failed=[dict(description=c.get("description"), function=c.get("function"),
                                        file=c.get("location", {}).get("file"), line=c.get("location", {}).get("line"),
                                        category=c.get("category")) for c in real],
-                          inconclusive=[c.get("description") for c in incon + undet],
+                          inconclusive=[c.get("description") for c in incon] + ([] if incon else [c.get("description") for c in undet][:5]),
                           covers_satisfied=covers_sat, covers_unsat=len(covers_unsat),
                           duration_ms=r.get("duration_ms"), solver_s=stats.get("runtime_solver_s"),
                           symex_s=stats.get("runtime_symex_s"), vccs=stats.get("vccs_generated"))
